@@ -112,3 +112,14 @@ Example C36_witness_pcheck_rejects_orphan_accept :
        (mkacct None [] [] None [] [(20, mko2 (Some 10) SNever 60 7)] [])
        [mkchk 20 (Some 10) 0 400000000000 true]]) = false.
 Proof. vm_compute. reflexivity. Qed.
+
+(* C36_dead_parent / C36_dead_oauth2_session (fix 8607e8e): a parent login session, or the OAuth2
+   session record itself, that is past its expiry but not yet turned into a revoked one by the
+   plugin rejects the token; just before the expiry the same token is accepted *)
+Example C36_witness_expired_parent :
+  live_at 950000000000 (SExpires 900000000000) = false
+  /\ check w_acct 20 (Some 11) 0 899999999999 = true
+  /\ check w_acct 20 (Some 11) 0 900000000000 = false
+  /\ check w_acct 21 (Some 11) 0 799999999999 = true
+  /\ check w_acct 21 (Some 11) 0 800000000000 = false.
+Proof. vm_compute. repeat split. Qed.
